@@ -23,7 +23,9 @@ from pycaption.dfxp.base import DFXPWriter, DFXP_DEFAULT_LANGUAGE_CODE, DFXP_DEF
 from refs.stubdom import StubSoup, StubTag
 
 SHAPES = {"one language": {"en-US": 2}, "two languages": {"en-US": 2, "fr-FR": 1}, "empty first": {"de": 0, "en-US": 1},
-          "empty last": {"en-US": 1, "xx": 0}, "three languages": {"en": 1, "en-US": 1, "fr": 2}}
+          "empty last": {"en-US": 1, "xx": 0}, "three languages": {"en": 1, "en-US": 1, "fr": 2},
+          # (the reader's default language code is a language like any other: its div says so)
+          "default language code first": {"und": 1, "en": 1}, "default language code last": {"en": 2, "und": 1}}
 
 
 def write_skeleton(c):
